@@ -193,14 +193,27 @@ def execute(sc, ctx) -> None:
         fs = _FS()
         fs.samples, fs.spec, fs.nsamples = W, {"nchans": nchans, "nsamps": [nsblk] * sc["nsub"]}, N
         twin = None
+        held = []  # blocks returned earlier and still held by the caller: they must not change later
+
+        def recheck_held(i_now):
+            for (arr, st0, n0, i0) in held:
+                if not filgen.same_bits(np.ascontiguousarray(np.asarray(arr).T).astype(W.dtype), W[st0 : st0 + n0]):
+                    raise Violation("C18/read_block/held-block-changed-by-a-later-read",
+                                    f"the block returned by op {i0} (read_block({st0},{n0})) no longer holds its samples after op {i_now}",
+                                    {**info0, "api": "read_block", "start": st0, "nsamps": n0})
+            if held:
+                ctx.probe("held-blocks-rechecked")
+
         for i, op in enumerate(sc["ops"]):
             kind = op["op"]
+            recheck_held(i)
             info = {**info0, "api": kind, **{k: v for k, v in op.items() if k != "op"}, "op_index": i, "N": N}
             if kind == "read_block":
                 st, n = op["start"], op["nsamps"]
                 in_range = st >= 0 and st + n <= N
                 try:
-                    got = np.asarray(reader.read_block(st, n).data)
+                    result_block = reader.read_block(st, n)
+                    got = np.asarray(result_block.data)
                     raised = None
                 except Exception as e:  # noqa: BLE001
                     raised = e
@@ -220,6 +233,7 @@ def execute(sc, ctx) -> None:
                 if not filgen.same_bits(np.ascontiguousarray(got.T).astype(W.dtype), W[st : st + n]):
                     raise Violation(f"C18/read_block/differs-from-whole-file-read/{tag}", "", info)
                 ctx.probe("compared-read")
+                held.append((result_block.data, st, n, i))
                 if not aligned:
                     ctx.probe("unaligned-read")
                 if crossed == 1:
@@ -263,6 +277,7 @@ def execute(sc, ctx) -> None:
                     raise Violation(f"C18/{kind}/differs-from-sigproc-twin", f"{a[:4].tolist()} vs {b[:4].tolist()}", info)
                 ctx.probe("twin-compared")
                 ctx.log(kind, i, op["gulp"], zlib.crc32(np.ascontiguousarray(b).tobytes()))
+        recheck_held(len(sc["ops"]))
         try:
             reader._fitsfile._fits.close()
         except Exception:  # noqa: BLE001,S110
